@@ -344,3 +344,8 @@ def run(ctx):
     from rules import round6
     round6.share(ctx, "R9.7", "C04", lambda i_: i_["rule"] == "R4.4" and i_["inst"].startswith("model_ovni_finish:"), "all-dead:",
                  "a truncated stream whose thread is not dead is accepted", 10)
+    ctx.rule("R9.8", "a finished stream is never reopened: ovni_thread_init on a thread that was freed (finished set) dies "
+             "on every path before it resets, opens or allocates anything; a second life would rewrite, from offset 0 or in "
+             "a temporary directory, a stream whose visible metadata already says finished")
+    from rules import round8
+    round8.check_init_after_free_refused(ctx, "R9.8")
